@@ -51,7 +51,7 @@ rotating_time = dict(
     name='RS.time_files', primary='C15', props={'C15'}, kind='L', funcs=[], enforce=None,
     desc='the real RotatingFileSink with time rotation (GMT) on real files against the property: two statements share a file exactly when no scheduled rotation point lies between them (first point from _calculate_initial_rotation_tp with the real libc, then every period, also after many skipped periods)',
     native=dict(cpp='rotating_time.cpp', file='include/quill/sinks/RotatingSink.h', function='RotatingSink::{RotatingSink,write_log,_time_rotation,_calculate_initial_rotation_tp,_calculate_rotation_tp,_rotate_files}', defs_quick=['LEN=4'], defs_thorough=['LEN=6']),
-    bounded=dict(bound='4 start instants x 4 schedules x increasing sequences of <= 4 (thorough: 6) instants from an 8-point grid', form='b'),
+    bounded=dict(bound='2 naming schemes (Index, DateAndTime) x 4 start instants x 4 schedules x increasing sequences of <= 4 (thorough: 6) instants from an 8-point grid', form='b'),
     dropped=[], trusted=['g++ / libstdc++ / libc (gmtime_r, timegm) / the file system execute the real sink'], min_obligations=1, timeout=1200)
 UNITS += [rotating_time]
 timestamp = dict(
